@@ -49,7 +49,13 @@ def gen_shape(rng, k):
 
     def ov():
         s = ovstyle if ovstyle != "mixed" else rng.choice(["match", "star"])
-        return "*" if s == "star" else "%dM" % rng.choice([0, 1, 1, 2, 3])
+        if s == "star":
+            return "*"
+        n = rng.choice([0, 1, 1, 2, 3])
+        if version == "gfa1" and n >= 1 and rng.random() < 0.2:
+            # '=' (sequence match) is merged over like M
+            return rng.choice(["%d=" % n, "1=%dM" % (n - 1) if n > 1 else "1=", "%dM1=" % (n - 1) if n > 1 else "1="])
+        return "%dM" % n
     for _ in range(nchains):
         n = rng.randint(1, 5)
         if len(names) < n:
